@@ -441,6 +441,61 @@ func (h *hwire) msgLine(d *driver, s *appState, f []string) (out string) {
 // acth <amount> <denomHex> <actionId> <k> (<recipientHex> <b|a|n> <valueHex>)*: one action packet straight into the
 // executor of the harness-wired keeper (component level, non-committing). The orbiter account is funded with exactly
 // the amount first, as it is after the ICS-20 credit on the receive path.
+// dispatchh <amount> <denomHex> <memoHex>: Dispatcher.DispatchPayload at component level — the payload is decoded by the
+// codec alone (none of the memo parser's checks, no Payload.Validate), the coin is put on the orbiter account as ICS-20
+// would have, and the dispatch runs with message-level rollback.
+func (h *hwire) dispatchLine(d *driver, s *appState, f []string) (out string) {
+	defer func() {
+		if r := recover(); r != nil {
+			out = "res=panic hreq=- bal=- st=" + s.stateStr(s.env.Ctx)
+		}
+	}()
+	if len(f) < 3 {
+		return "bad-op"
+	}
+	amt, ok := sdkmath.NewIntFromString(f[0])
+	if !ok {
+		return "bad-op"
+	}
+	denom := mustUnhx(f[1])
+	var pw core.PayloadWrapper
+	if err := orbtypes.UnmarshalJSON(s.env.Cdc, []byte(mustUnhx(f[2])), &pw); err != nil {
+		return "res=err:decode hreq=- bal=- st=" + s.stateStr(s.env.Ctx)
+	}
+	h.resetOp()
+	h.faults = map[string]map[int]bool{}
+	h.panics = map[string]map[int]bool{}
+	cacheCtx, write := s.env.Ctx.CacheContext()
+	cacheCtx = cacheCtx.WithEventManager(sdk.NewEventManager())
+	if amt.IsPositive() && sdk.ValidateDenom(denom) == nil {
+		coins := sdk.NewCoins(sdk.NewCoin(denom, amt))
+		if err := s.env.App.BankKeeper.MintCoins(cacheCtx, "transfer", coins); err != nil {
+			return "bad-op"
+		}
+		if err := s.env.App.BankKeeper.SendCoinsFromModuleToAccount(cacheCtx, "transfer", core.ModuleAddress, coins); err != nil {
+			return "bad-op"
+		}
+	}
+	before := s.snap(cacheCtx)
+	ta, err := core.NewTransferAttributes(core.PROTOCOL_IBC, "channel-0", denom, amt)
+	if err != nil {
+		return "res=err:attrs hreq=- bal=- st=" + s.stateStr(s.env.Ctx)
+	}
+	derr := h.k.Dispatcher().DispatchPayload(cacheCtx, ta, pw.Orbiter)
+	after := s.snap(cacheCtx)
+	res, req, bal := "ok", "-", "-"
+	if derr != nil {
+		res = "err"
+	} else {
+		write()
+		if len(h.reqs) > 0 {
+			req = strings.Join(h.reqs, ";")
+		}
+		bal = deltaStr(before.bal, after.bal)
+	}
+	return fmt.Sprintf("res=%s hreq=%s bal=%s st=%s", res, req, bal, s.stateStr(s.env.Ctx))
+}
+
 func (h *hwire) actLine(d *driver, s *appState, f []string) (out string) {
 	defer func() {
 		if r := recover(); r != nil {
